@@ -1448,6 +1448,9 @@ struct ssl
     unsigned char *certVerifyMsg;
     int32 certVerifyMsgLen;
     int ecdsaSizeChange;             /* retransmits for ECDSA sig */
+    unsigned char *nstMsg;           /* NewSessionTicket body, kept so that a
+                                        retransmitted flight is identical */
+    int32 nstMsgLen;
 # endif /* USE_DTLS */
 
     struct
